@@ -114,6 +114,13 @@ PerConnFifo == /\ \A c \in Conns : \A i \in 1..Len(obs.q[c]), j \in 1..Len(obs.q
                /\ ev.ev = "Drain" => \A c \in Conns : ~obs.hclosed[c] =>
                      LET mine == SelectSeq(ev.rx, LAMBDA d : d.c = c) IN
                      Len(mine) = Len(pre.q[c]) /\ \A i \in 1..Len(mine) : mine[i].n = pre.q[c][i].n
+               \* a single read takes the oldest queued datagram - returned if the buffer holds it, an error (and the datagram gone)
+               \* if it is too short - and leaves the rest of this queue and every other queue as they were
+               /\ ev.ev = "URead" =>
+                     /\ pre.q[ev.c] # <<>> /\ obs.q[ev.c] = Tail(pre.q[ev.c])
+                     /\ \A c \in Conns : c # ev.c => obs.q[c] = pre.q[c]
+                     /\ IF ev.form = "short" THEN ev.res = "short" /\ ev.rx = <<>>
+                        ELSE ev.res = "ok" /\ Len(ev.rx) = 1 /\ ev.rx[1].c = ev.c /\ ev.rx[1].n = pre.q[ev.c][1].n /\ ev.rx[1].src = pre.q[ev.c][1].src
 \* a connection never receives a first-contact STUN datagram whose USERNAME names another ufrag
 NoForeignUfrag == \A d \in Delivered : (d.n \in 1..Len(inj) /\ IsStun(inj[d.n].kind)
                                         /\ ~\E c \in Conns : <<c, Canon(d.src)>> \in started) => inj[d.n].kind = obs.cu[d.c]
